@@ -159,6 +159,9 @@ pub fn check_program_sharded(prog: &Rc<Prog>, setup: &Setup, depth: usize, pairs
     });
     if shard == 0 {
         stats.add("paths", paths.len() as u64);
+        if let Some(p) = paths.iter().max_by_key(|p| p.len()) {
+            stats.sample(json!({"program": prog.name, "path": crate::inst::hist_to_json(p), "schedules": "each Cont of the path replaced by ContAsync(k), ContAsyncFinish for every k below the line's step count, and by a pause after every step"}));
+        }
     }
     for path in paths.iter().enumerate().filter(|(i, _)| i % nshards == shard).map(|(_, p)| p) {
         let Some((be, bf, steps, fuel)) = transcript(prog, setup, path) else { continue };
